@@ -58,7 +58,12 @@ let () = iter_lines (fun line ->
         let ((_, err), _) = autosave_session tmp_name autosave_skeleton bs NoFault fs0 false Z0 one in
         show (session_after torn_step tmp_name autosave_skeleton bs NoFault big O fs0 false Z0 one) ^ " ERR=" ^ bit err
       | ["MEMBER"; gr; tmp] ->
-        "IN=" ^ bit (crash_possible tmp_name autosave_state_file autosave_skeleton bs fs0 (opt_of gr, opt_of tmp))
+        (* candidate crash points from the temp file's length first (sound: AutoSave_proofs.crash_possible_fast_sound);
+           the full enumeration only as a fallback on small states *)
+        let o = (opt_of gr, opt_of tmp) in
+        let total = List.fold_left (fun a b -> a + List.length b) 0 bs in
+        "IN=" ^ bit (crash_possible_fast tmp_name autosave_state_file autosave_skeleton bs fs0 o
+                     || (total <= 4096 && crash_possible tmp_name autosave_state_file autosave_skeleton bs fs0 o))
       | ["FMEMBER"; gr; tmp; err] ->
         "IN=" ^ bit (fault_possible tmp_name autosave_state_file autosave_skeleton bs fs0 (opt_of gr, opt_of tmp) (err = "1"))
       | _ -> "SKIP unknown scenario" in
